@@ -1,0 +1,17 @@
+//go:build verif
+
+package main
+
+// Contracts for /verif (contract-based deductive verification of this package).
+// Comment-only file: only the lines starting with "//@" are read, by /verif/bin/govc.
+
+// ---------------------------------------------------------------- allow-lists of the receiver (C15)
+
+//@ func strToIndex
+//@   ensures index-of: (result >= 0 ==> result < len(haystack) && haystack[result] == needle) && (result < 0 ==> forall(k, 0, len(haystack), haystack[k] != needle))
+//@   modifies nothing
+//@   loop 0 invariant -1 <= rangeindex && rangeindex < len(haystack) && forall(k, 0, rangeindex+1, haystack[k] != needle)
+
+//@ func (*serverApp).standardValidator
+//@   on return assert allow-list: result ==> (len(a.conf.Sources) > 0 ==> called(regexp.MatchString) && lastret(regexp.MatchString, 0) && lastret(regexp.MatchString, 1) == nil && lastarg(regexp.MatchString, 1) == source && exists(k, 0, len(a.conf.Sources), a.conf.Sources[k] == source)) && (len(a.conf.Keys) > 0 ==> exists(k, 0, len(a.conf.Keys), a.conf.Keys[k] == key))
+//@   on return assert listed-is-accepted: (len(a.conf.Sources) == 0 || (called(regexp.MatchString) && lastret(regexp.MatchString, 0) && lastret(regexp.MatchString, 1) == nil && exists(k, 0, len(a.conf.Sources), a.conf.Sources[k] == source))) && (len(a.conf.Keys) == 0 || exists(k, 0, len(a.conf.Keys), a.conf.Keys[k] == key)) ==> result
